@@ -118,6 +118,9 @@ class Section:
         self.name = name
         self.address = 0
         self.alignment = 4
+        # Locations inside this section which were aligned on purpose, as
+        # (offset, alignment) pairs. The linker must keep them aligned.
+        self.aligned_points = []
         self.data = bytearray()
 
     def add_data(self, data):
@@ -423,6 +426,11 @@ def serialize(x):
         res["address"] = hex(x.address)
         res["data"] = bin2asc(x.data)
         res["alignment"] = hex(x.alignment)
+        if x.aligned_points:
+            res["aligned_points"] = [
+                [hex(offset), hex(alignment)]
+                for offset, alignment in x.aligned_points
+            ]
     elif isinstance(x, Symbol):
         res["id"] = int(x.id)
         res["name"] = x.name
@@ -459,6 +467,10 @@ def deserialize(data):
         section_object.address = make_num(section["address"])
         section_object.data = asc2bin(section["data"])
         section_object.alignment = make_num(section["alignment"])
+        for offset, alignment in section.get("aligned_points", []):
+            section_object.aligned_points.append(
+                (make_num(offset), make_num(alignment))
+            )
 
     for reloc in data["relocations"]:
         relocation = RelocationEntry(
